@@ -8,6 +8,8 @@ mod mock;
 mod parseop;
 mod rng;
 mod script;
+mod treegen;
+mod treeop;
 
 use std::fs::File;
 use std::io::{BufRead, BufWriter, Write};
@@ -50,6 +52,24 @@ impl Out {
         match oracle {
             None => writeln!(self.expect, "-").unwrap(),
             Some(m) => writeln!(self.expect, "!{}", m).unwrap(),
+        }
+        self.n += 1;
+    }
+    fn include(&mut self, tree: &treeop::Tree, tag: &str) {
+        writeln!(self.cases, "{}", treeop::encode_include_case(tree)).unwrap();
+        writeln!(self.imp, "{}", treeop::run_include(tree)).unwrap();
+        writeln!(self.tags, "{}", tag).unwrap();
+        writeln!(self.expect, "-").unwrap();
+        self.n += 1;
+    }
+    fn update(&mut self, c: &treeop::UpdateCase) {
+        writeln!(self.cases, "{}", c.encode()).unwrap();
+        let (a, oracle) = c.run();
+        writeln!(self.imp, "{}", a).unwrap();
+        writeln!(self.tags, "{}", c.tag).unwrap();
+        match oracle {
+            None => writeln!(self.expect, "-").unwrap(),
+            Some(m) => writeln!(self.expect, "!{}", m.replace('\n', " ")).unwrap(),
         }
         self.n += 1;
     }
@@ -248,6 +268,54 @@ fn gen_profile(profile: &str, seed: u64, n: usize, thorough: bool, out: &mut Out
                     let (t, _) = parseop::gen_c03(&mut r);
                     out.fmt(&t, "c05 layout");
                 }
+            }
+        }
+        "c14" => {
+            for _ in 0..n {
+                let (tree, tag) = treegen::gen_include_tree(&mut r);
+                out.include(&tree, &tag);
+            }
+        }
+        "update" => {
+            for _ in 0..n {
+                let c = treegen::gen_update_case(&mut r, false);
+                out.update(&c);
+            }
+        }
+        "updatecrash" => {
+            // every interruption point k of an uninterrupted run (driver panic at the k-th request)
+            for _ in 0..n {
+                let c = treegen::gen_update_case(&mut r, !thorough);
+                // number of requests of the uninterrupted run
+                let (a, _) = c.run();
+                out.update(&c);
+                let nreq = a.split(" S ").nth(1).and_then(|x| x.split(' ').next()).and_then(|x| x.parse::<usize>().ok()).unwrap_or(0);
+                // final contents of the uninterrupted run: "F n (path content)* L"
+                let fin: Vec<String> = {
+                    let t: Vec<&str> = a.split(' ').collect();
+                    let nf: usize = t[2].parse().unwrap_or(0);
+                    (0..nf).map(|i| enc::unhx(t[4 + 2 * i])).collect()
+                };
+                for k in 0..nreq {
+                    let mut ck = c.clone();
+                    ck.crash_at = Some(k);
+                    ck.expect_final = Some(fin.clone());
+                    ck.tag = format!("update crash k={} of {}", k, nreq);
+                    out.update(&ck);
+                }
+            }
+        }
+        "updatesmall" => {
+            for t in treegen::small_files() {
+                let c = treeop::UpdateCase {
+                    sep: " ".into(),
+                    tree: treeop::Tree { files: vec![("root.slt".into(), t)], root: "root.slt".into() },
+                    db: mock::DbScript { engine: "mock".into(), ..Default::default() },
+                    tag: "update small".into(),
+                    representable: true,
+                    ..Default::default()
+                };
+                out.update(&c);
             }
         }
         "c04enum" => {
